@@ -112,8 +112,13 @@ def expected_outcome(cls, schema, inst):
     return outcome(run)
 
 
-def spellings(rng, registered_keys):
+def spellings(rng, registered_keys, future=()):
     out = []
+    # ids that a LATER step of the history registers are, for now, unrecognised URIs (both spellings):
+    # a lookup before the registration must not influence the lookup after it
+    for key in future:
+        out.append(("unknown-uri", key + "#", None))
+        out.append(("unknown-uri", key, None))
     for key in registered_keys:
         out.append(("exact#", key + "#", key))
         out.append(("exact", key, key))
@@ -125,7 +130,7 @@ def spellings(rng, registered_keys):
     return out
 
 
-def check_dispatch(rec, rng, registered, history, scratch):
+def check_dispatch(rec, rng, registered, history, scratch, future=()):
     """registered: own table {id-without-#: class}."""
     latest = impl.CLS[7]
     for frag, inst in PAIRS:
@@ -147,7 +152,7 @@ def check_dispatch(rec, rng, registered, history, scratch):
             if have != want:
                 rec.violation("validate-dispatch", {"history": history, "schema": frag, "instance": inst}, "validate gives %r, selected class %r" % (have, want))
             continue
-        for kind, spelling, key in spellings(rng, sorted(registered)):
+        for kind, spelling, key in spellings(rng, sorted(registered), future):
             schema = dict(frag)
             if spelling is not None:
                 schema["$schema"] = spelling
@@ -262,14 +267,15 @@ def run_history(rec, ops, seed, scratch):
                     confirmed += 1
     rec.counters["distinguished_pairs"] = max(rec.counters.get("distinguished_pairs", 0), len(distinguished))
     rec.counters["model_confirms_disagreement"] = max(rec.counters.get("model_confirms_disagreement", 0), confirmed)
-    check_dispatch(rec, rng, registered, list(history), scratch)
+    new_ids = ["http://vf.example/meta/%d/%d/schema" % (seed, n) for n in range(len(ops))]
+    check_dispatch(rec, rng, registered, list(history), scratch, future=new_ids)
     if ops:
         rec.count("histories_with_registrations")
     for n, op in enumerate(ops):
         base = impl.CLS[op["base"]]
         meta = dict(base.META_SCHEMA)
         idk = "id" if "id" in meta else "$id"
-        new_id = "http://vf.example/meta/%d/%d/schema" % (seed, n)
+        new_id = new_ids[n]
         meta[idk] = new_id + ("#" if op["hash"] else "")
         with warnings.catch_warnings():
             warnings.simplefilter("ignore")
@@ -282,7 +288,7 @@ def run_history(rec, ops, seed, scratch):
         registered[new_id] = C
         history.append(op)
         rec.count("registrations")
-        check_dispatch(rec, rng, registered, list(history), scratch if n == len(ops) - 1 else None)
+        check_dispatch(rec, rng, registered, list(history), scratch if n == len(ops) - 1 else None, future=new_ids[n + 1:])
 
 
 def child(tier, seed, shard, nshards, ops, hseed):
